@@ -388,7 +388,7 @@ fn c03(quick: bool) -> Vec<Harness> {
         cfg.costs.drop_op = 1;
         cfg.costs.fresh_waker = 1;
         cfg.report = vec!["C03"];
-        v.push(ops_harness(&format!("sq{sq}"), "C03", cfg.clone(), bounds(d(9, 11), d(3, 4), 4)));
+        v.push(ops_harness(&format!("sq{sq}"), "C03", cfg.clone(), bounds(if sq == 4 { d(8, 11) } else { d(9, 11) }, d(3, 4), 4)));
         if sq <= 2 {
             // The caller polls without a timeout.
             cfg.blocking_enter = true;
@@ -414,7 +414,7 @@ fn c03(quick: bool) -> Vec<Harness> {
         cfg.costs.drop_op = 1;
         cfg.costs.fresh_waker = 1;
         cfg.report = vec!["C03"];
-        v.push(ops_harness(name, "C03", cfg, bounds(d(9, 11), d(3, 4), 4)));
+        v.push(ops_harness(name, "C03", cfg, bounds(if name == "streams" { d(8, 11) } else { d(9, 11) }, d(3, 4), 4)));
     }
     v
 }
